@@ -548,7 +548,9 @@ def chain_in(tree, d):
 
 def mechanism_of(sc, chain, cls, detail):
     """Coarse name of the defect mechanism shown by a minimal scenario, used to group witnesses: the set of
-    <source kind><s|n>['!' when the atom is off the chain the model selects].  Atoms that merely establish the context are left
+    <source kind><s|n>['!' when the atom is off the chain the model selects], source kinds D = a default config file (root or
+    sub-parser), K = config content (parsed string / object, --cfg at any level), E = environment, A = command line.  Atoms that
+    merely establish the context are left
     out: command-line / config atoms on the chain above the place of the mismatch; for rejections everything but the
     default-config atoms (+ 'E' when the environment is on).  The witness part of the key names the exact input."""
     base = cls[6:] if cls.startswith("order-") else cls
@@ -564,15 +566,16 @@ def mechanism_of(sc, chain, cls, detail):
         k = src_kind(s)
         target = a[1] if a[0] == "s" else a[1] + (a[2],)
         on = chain[: len(target)] == target
-        if base == "rejected" and k not in ("D", "Dc"):
-            if k == "E":
+        short = {"D": "D", "Dc": "D", "B": "K", "C": "K", "Cs": "K", "E": "E", "A": "A"}[k]
+        if base == "rejected" and short != "D":
+            if short == "E":
                 parts.add("E")
             elif detail not in ("dcf-needs-subcommand", "nested-key"):
-                parts.add("%s%s%s" % (k, a[0], "" if on else "!"))
+                parts.add("%s%s%s" % (short, a[0], "" if on else "!"))
             continue
-        if where is not None and on and k in ("A", "B", "C", "Cs") and len(target) < where:
+        if where is not None and on and short in ("A", "K") and len(target) < where:
             continue
-        parts.add("%s%s%s" % (k, a[0], "" if on else "!"))
+        parts.add("%s%s%s" % (short, a[0], "" if on else "!"))
     return "+".join(sorted(parts)) or "-"
 
 
@@ -939,8 +942,8 @@ def tasks_for(thorough, rng):
                 if own and not any(s == "D" for s, _ in sc1):
                     continue
                 i += 1
-                if not thorough and len(sc1) == 3 and i % 5 != 0:
-                    continue  # quick: every fifth 3-atom lift, deterministic
+                if len(sc1) == 3 and i % (2 if thorough else 5) != 0:
+                    continue  # every fifth (thorough: second) 3-atom lift, deterministic
                 # how the outer chain is selected: named on the command line / in the config / left implicit
                 for how in (("A", "B", "I") if thorough or len(sc1) == 1 else ("ABI"[i % 3],)):
                     sc = lift(T[tid], sc1, target, how, own)
@@ -953,7 +956,7 @@ def tasks_for(thorough, rng):
         for tid in ("d3", "d2s", "k4"):
             u = universe(T[tid], unknown=False)
             done = 0
-            while done < 4000:
+            while done < 2000:
                 sc = tuple(sorted(set(rng.sample(u, rng.randint(3, 6)))))
                 if not valid(T[tid], sc):
                     continue
@@ -964,7 +967,7 @@ def tasks_for(thorough, rng):
     return tasks, n1, n2
 
 
-WITNESSES_PER_SHAPE = 3
+WITNESSES_PER_SHAPE = 3  # quick; thorough: 2
 
 
 def main():
@@ -974,13 +977,14 @@ def main():
                 "with required and optional subcommands and compared with a reference selection+precedence model; non-trivial = distinct "
                 "(tree, required-mode, channel, defaults flag, scenario) with a non-empty scenario; a violation is shrunk to a minimal "
                 "scenario; key = c17:<class>:<shape of the minimal scenario>:<tree>:<modes>:<channels>:<minimal scenario>:<detail>, at most "
-                "%d witnesses per (class, shape) get their own key, further ones are attributed to the first" % WITNESSES_PER_SHAPE)
+                "3 (thorough 2) witnesses per (class, shape) get their own key, further ones are attributed to the first")
     import multiprocessing
 
     import time
     t0 = time.time()
     tasks, n1, n2 = tasks_for(h.thorough, h.rng)
     t1 = time.time()
+    per_shape = 2 if h.thorough else WITNESSES_PER_SHAPE
     size = 100
     workers = max(1, min(16, os.cpu_count() or 1))
     stats = {"accept": 0, "reject": 0, "env-ambiguous": 0, "stale-parser-only": 0}
@@ -1018,7 +1022,7 @@ def main():
                 # default-config sources: reported in the notes, not asserted (README rule 1); --assert-order asserts it
                 h.check(True, "")
                 continue
-            w = rec["witness"] if g["witnesses"].index(rec["witness"]) < WITNESSES_PER_SHAPE else g["witnesses"][0]
+            w = rec["witness"] if g["witnesses"].index(rec["witness"]) < per_shape else g["witnesses"][0]
             h.check(False, "c17:%s:%s:%s" % (rec["cls"], rec["shape"], w), rec["what"], rec["case"])
     h.note("tasks: %d in %d jobs on %d worker processes; seconds: enumerate %.1f, run %.1f" % (len(tasks), len(jobs), workers, t1 - t0, t2 - t1))
     h.note("outcomes: %r" % stats)
@@ -1041,7 +1045,7 @@ def main():
     sys.exit(h.finish(exhaustive=True, bound=(
         "trees: 1-3 (thorough 4) subcommands at depth 1, depth 2 (incl. equal names in two branches and repeated names a.a.a), depth 3 via lifted "
         "scenarios (thorough: + random); scenarios: all with <= %d atoms on root[a,b], <= %d on the basic depth-2 tree (<= 2 on the other depth-2 trees), <= 2 (thorough 3) on 1/3/4 subcommands, every <=3-atom "
-        "depth-1 scenario lifted to inner nodes of depth-2/3 trees (quick: every fifth 3-atom one, one of three outer-selection styles); required/optional per level; defaults on/off" % (n1, n2))))
+        "depth-1 scenario lifted to inner nodes of depth-2/3 trees (every second 3-atom one; quick: every fifth, one of three outer-selection styles); required/optional per level; defaults on/off" % (n1, n2))))
 
 
 if __name__ == "__main__":
